@@ -23,6 +23,11 @@ ASSUMPTIONS = ["geometric/harmonic means are asserted on non-negative data only 
 @st.composite
 def _case(draw):
     g = draw(gen.grids())
+    # unit diversity: lengths (not angles) and field values over many decades - a mean must not care
+    gs = draw(st.sampled_from([1.0, 1.0, 1e-3, 1e3, 1e-6, 100.0]))
+    vs = draw(st.sampled_from([1.0, 1.0, 1e-9, 1e7, 1e-3, 1e4]))
+    if gs != 1.0:
+        g = dict(g, faces=[[x * gs for x in f] if k in ('x', 'r') else f for f, k in zip(g['faces'], AXES[g['name']])])
     d = dims_of(g['faces'])
     fs = full_shape(d)
     style = draw(st.sampled_from(['pos', 'contrast', 'posint']))
@@ -47,7 +52,7 @@ def _case(draw):
     anyf = draw(gen.cell_full(d, styles=('generic', 'int', 'quarter', 'zeros')))
     u = draw(gen.face_field(d, styles=('generic', 'zeros', 'pos', 'neg', 'int')))
     lin = [draw(st.sampled_from([0.0, 1.0, -2.0, 0.5])) for _ in range(len(d) + 1)]
-    return dict(grid=g, pos=posz.tolist(), zmode=zmode, any=anyf, u=u, lin=lin)
+    return dict(grid=g, pos=(posz * vs).tolist(), zmode=zmode, any=(np.array(anyf) * vs).tolist(), u=u, lin=lin, gscale=gs, vscale=vs)
 
 
 def strategy(tier):
@@ -86,7 +91,8 @@ def budget(tier):
 def classify(case):
     g = case['grid']
     d = dims_of(g['faces'])
-    return dict(grid=g['name'], N="x".join(map(str, d)), nonuniform=nonuniform(g['faces']), zeros=case['zmode'])
+    return dict(grid=g['name'], N="x".join(map(str, d)), nonuniform=nonuniform(g['faces']), zeros=case['zmode'],
+                gscale=case.get('gscale', 1.0), vscale=case.get('vscale', 1.0))
 
 
 def _adjacent_zero_stats(a):
@@ -191,7 +197,7 @@ def check(case):
                 res.fail(f"ordering:{tagd}:ax{ax}", f"harmonic <= geometric <= arithmetic violated ({name}, axis {ax})")
         # arbitrary-sign data: linear / arithmetic against reference
         lo, hi = _pairs(anyf, ax, nd)
-        res.expect_small("linear-any", _rel(lin_any[ax], (wh * lo + wl * hi) / (wl + wh)) if np.asarray(lin_any[ax]).shape == lo.shape else float('inf'),
+        res.expect_small("linear-any", _abs_scaled(lin_any[ax], (wh * lo + wl * hi) / (wl + wh), lo, hi) if np.asarray(lin_any[ax]).shape == lo.shape else float('inf'),
                          1e-12, f"linear-ref:{tagd}:ax{ax}", f"linearMean != linear interpolation ({name}, axis {ax})")
         res.expect_small("arithmetic-any", _abs_scaled(ari_any[ax], (wl * lo + wh * hi) / (wl + wh), lo, hi), 1e-12,
                          f"arithmetic-ref:{tagd}:ax{ax}", f"arithmeticMean != width-weighted mean ({name}, axis {ax})")
